@@ -95,6 +95,48 @@ type fakeConn struct {
 	local, remote *net.TCPAddr
 	closeOnce     sync.Once
 	closed        chan struct{}
+	// net.Pipe serialises writers with a sync.Mutex held for the whole (possibly blocked) Write; a
+	// mutex wait is not "durably blocked" for synctest, so a second writer (e.g. a NOTIFICATION
+	// while the UPDATE sender is blocked on a neighbour that does not read) would freeze virtual
+	// time. Writers are serialised here with a channel instead, honouring the write deadline.
+	wsem chan struct{}
+	dmu  sync.Mutex
+	wdl  time.Time
+}
+
+func (c *fakeConn) SetWriteDeadline(t time.Time) error {
+	c.dmu.Lock()
+	c.wdl = t
+	c.dmu.Unlock()
+	return c.Conn.SetWriteDeadline(t)
+}
+
+func (c *fakeConn) SetDeadline(t time.Time) error {
+	c.dmu.Lock()
+	c.wdl = t
+	c.dmu.Unlock()
+	return c.Conn.SetDeadline(t)
+}
+
+func (c *fakeConn) Write(b []byte) (int, error) {
+	c.dmu.Lock()
+	d := c.wdl
+	c.dmu.Unlock()
+	var expired <-chan time.Time
+	if !d.IsZero() {
+		t := time.NewTimer(time.Until(d))
+		defer t.Stop()
+		expired = t.C
+	}
+	select {
+	case c.wsem <- struct{}{}:
+	case <-expired:
+		return 0, os.ErrDeadlineExceeded
+	case <-c.closed:
+		return 0, io.ErrClosedPipe
+	}
+	defer func() { <-c.wsem }()
+	return c.Conn.Write(b)
 }
 
 func (c *fakeConn) LocalAddr() net.Addr  { return c.local }
@@ -115,8 +157,8 @@ func vpPipe(srvAddr, peerAddr netip.Addr, srvPort, peerPort int) (srv *fakeConn,
 	a, b := net.Pipe()
 	sa := &net.TCPAddr{IP: srvAddr.AsSlice(), Port: srvPort}
 	pa := &net.TCPAddr{IP: peerAddr.AsSlice(), Port: peerPort}
-	return &fakeConn{Conn: a, local: sa, remote: pa, closed: make(chan struct{})},
-		&fakeConn{Conn: b, local: pa, remote: sa, closed: make(chan struct{})}
+	return &fakeConn{Conn: a, local: sa, remote: pa, closed: make(chan struct{}), wsem: make(chan struct{}, 1)},
+		&fakeConn{Conn: b, local: pa, remote: sa, closed: make(chan struct{}), wsem: make(chan struct{}, 1)}
 }
 
 // ---------------------------------------------------------------------------------------
